@@ -156,6 +156,7 @@ func Run(c *ev.Ctx) {
 	c1 := cmdlib.CheckSpec{ID: "c1", Status: api.HealthPassing}
 	c1crit := cmdlib.CheckSpec{ID: "c1", Status: api.HealthCritical}
 	c1warn := cmdlib.CheckSpec{ID: "c1", Status: api.HealthWarning}
+	c1dflt := cmdlib.CheckSpec{ID: "c1", Status: ""} // status omitted: the store defaults it to critical
 	sc1 := cmdlib.CheckSpec{ID: "sc1", Status: api.HealthPassing, ServiceID: "web"}
 	sc1crit := cmdlib.CheckSpec{ID: "sc1", Status: api.HealthCritical, ServiceID: "web"}
 	sessCk := cmdlib.CheckSpec{ID: "sessck", Status: api.HealthCritical, Type: "session", SessName: "lockname"}
@@ -163,12 +164,13 @@ func Run(c *ev.Ctx) {
 	s1 := cmdlib.SessionSpec{Name: "s1", Node: "n1", Behavior: structs.SessionKeysRelease, NodeChecks: []string{"c1"}}
 	s2 := cmdlib.SessionSpec{Name: "s2", Node: "n1", Behavior: structs.SessionKeysDelete, NodeChecks: []string{"sc1"}}
 	s3 := cmdlib.SessionSpec{Name: "s3", Node: "n2", Behavior: structs.SessionKeysRelease, SessName: "lockname"}
+	s4 := cmdlib.SessionSpec{Name: "s4", Node: "n1", Behavior: structs.SessionKeysDelete, NodeChecks: []string{"c1"}} // shares c1 with s1
 
 	lockOps := map[string]cmdlib.KVSpec{}
 	var alpha []world.Op
 	keys := []string{"a", "a/b"}
 	for _, k := range keys {
-		for _, s := range []string{"s1", "s2", "s3"} {
+		for _, s := range []string{"s1", "s2", "s3", "s4"} {
 			for _, v := range []api.KVOp{api.KVLock, api.KVUnlock} {
 				sp := cmdlib.KVSpec{Verb: v, Key: k, Val: "x", Sess: s}
 				lockOps[sp.Name()] = sp
@@ -178,11 +180,12 @@ func Run(c *ev.Ctx) {
 		alpha = append(alpha, cmdlib.KVSpec{Verb: api.KVSet, Key: k, Val: "y"}.Op(), cmdlib.KVSpec{Verb: api.KVDelete, Key: k}.Op())
 	}
 	alpha = append(alpha, cmdlib.KVSpec{Verb: api.KVDeleteTree, Key: "a"}.Op())
-	alpha = append(alpha, s1.Create(), s2.Create(), s3.Create(), cmdlib.SessionDestroy("s1"), cmdlib.SessionDestroy("s2"), cmdlib.SessionDestroy("s3"))
+	alpha = append(alpha, s1.Create(), s2.Create(), s3.Create(), s4.Create(), cmdlib.SessionDestroy("s1"), cmdlib.SessionDestroy("s2"), cmdlib.SessionDestroy("s3"), cmdlib.SessionDestroy("s4"))
 	alpha = append(alpha,
 		cmdlib.RegNode(n1), cmdlib.RegNode(n1b), cmdlib.RegNode(n2),
 		cmdlib.RegService(n1, web),
-		cmdlib.RegCheck(n1, c1), cmdlib.RegCheck(n1, c1crit), cmdlib.RegCheck(n1, c1warn),
+		cmdlib.RegCheck(n1, c1), cmdlib.RegCheck(n1, c1crit), cmdlib.RegCheck(n1, c1warn), cmdlib.RegCheck(n1, c1dflt),
+		cmdlib.Txn(cmdlib.TxnCheck(api.CheckSet, "n1", c1dflt, 0)),
 		cmdlib.RegCheck(n1, sc1), cmdlib.RegCheck(n1, sc1crit),
 		cmdlib.RegCheck(n2, sessCk),
 		cmdlib.DeregCheck("n1", "c1", ""), cmdlib.DeregCheck("n1", "sc1", ""), cmdlib.DeregCheck("n2", "sessck", ""),
@@ -212,6 +215,7 @@ func Run(c *ev.Ctx) {
 		append(append([]world.Op{}, base...), s1.Create(), s2.Create(), s3.Create(), lock("a", "s1"), lock("a/b", "s2"),
 			cmdlib.PQSet("q1", "q-one", "s1", "web"), cmdlib.PQSet("q2", "q-two", "s2", "web")),
 		append(append([]world.Op{}, base...), s3.Create(), lock("a", "s3"), s1.Create(), lock("a/b", "s1")),
+		append(append([]world.Op{}, base...), s1.Create(), s4.Create(), lock("a", "s1"), lock("a/b", "s4")),
 	}
 	depth := 3
 	if !quick {
